@@ -3,7 +3,7 @@ import regen
 
 THEOREMS = {
     "Dawgs.Props.C02": [
-        "Dawgs.C02.Props.limit_guard_tie", "Dawgs.C02.Props.plan_guard_tie", "Dawgs.C02.Props.tailGuard_spec", "Dawgs.C02.Props.limit_pushdown_preserves",
+        "Dawgs.C02.Props.limit_guard_tie", "Dawgs.C02.Props.plan_guard_tie", "Dawgs.C02.Props.tailGuard_spec", "Dawgs.C02.Props.transparent_where_tie", "Dawgs.C02.Props.limit_below_filter_loses_rows", "Dawgs.C02.Props.limit_pushdown_preserves",
         "Dawgs.C02.Props.limit_pushdown_needs_guard", "Dawgs.C02.Props.prune_expr", "Dawgs.C02.Props.prune_preserves", "Dawgs.C02.Props.attach_preserves",
         "Dawgs.C02.Props.reorder_preserves", "Dawgs.C02.Props.reversal_preserves", "Dawgs.C02.Props.count_fast_path_tie",
         "Dawgs.C02.Props.count_fast_path_preserves", "Dawgs.C02.Props.count_fast_path_hyp_none", "Dawgs.C02.Props.count_fast_path_hyp_kinds",
@@ -86,6 +86,9 @@ def classify(op, impl, verdict):
 def judge(op, impl, model):
     if impl.startswith("panic"):
         return "reject harness-panic " + impl[:80]
+    if impl.startswith("lit-differs"):
+        # harness/littie.go: a numeric literal of the statement is not written with its value in the SQL text that PostgreSQL gets
+        return "reject sql-text-literal-differs-from-statement " + impl[:300].replace(" ", "_")
     if impl.startswith("hook-missing"):
         return "reject hook-missing the tree under test lacks hooks/C02.patch (translate.TranslateVariant)"
     if impl.startswith("err unoptimized-translate"):
@@ -194,7 +197,7 @@ SPEC = {
     "rule": "cases = one hand-written query per rewrite rule / lowering + FOCUSED FAMILIES (harness/focused.go: variable-length step + fixed hops with every subset of the suffix nodes "
             "already bound; aggregate-only RETURN incl. collect / size(collect()) with LIMIT and no ORDER BY; the aggregate-traversal-count shape with every range form incl. *0..; "
             "collect(node) AS xs used under IN with every way of reading xs afterwards; bindings read by later clauses; named path + pattern predicate over reversible patterns with the path / "
-            "nodes(p) / relationships(p) observed directly and through WITH; string predicates with backslash / % / _ / quote literals; every grammar spelling of the ORDER BY direction — the direction handed to the reference and to the model pair is read from the TEXT, harness/sortdir.go; exact-length expansions in the spellings `*n` / `*n..n` next to a proper range, with either endpoint bound by an earlier clause and with fixed hops after them — family exact-range) + FRAGMENT queries (the generators of C01's tie: stage S1, stage S2b (one hop with WHERE), stage S2c (chains, with and without WHERE conjuncts over single variables), stage S1c / S2n (count over a node pattern / a hop), stage S2L (a hop with LIMIT k and no ORDER BY: limit pushdown), and `MATCH (n[:K...]) RETURN count(n)`; for these the driver also "
+            "nodes(p) / relationships(p) observed directly and through WITH; string predicates with backslash / % / _ / quote literals; every grammar spelling of the ORDER BY direction — the direction handed to the reference and to the model pair is read from the TEXT, harness/sortdir.go; exact-length expansions in the spellings `*n` / `*n..n` next to a proper range, with either endpoint bound by an earlier clause and with fixed hops after them, and with a property map on the variable-length pattern — family exact-range; double literals beyond 32-bit precision in every literal position — family double-literal; LIMIT 0 / 1 / 2^31 / 2^63-1 and SKIP 0 / beyond the row count on every shape that triggers a fast path or a LIMIT-handling lowering — family limit-boundary; LIMIT over a named non-shortest-path pattern with a quantifier over relationships(p) / nodes(p) in WHERE — family limit-tail-filter; for BOTH variants the numeric literals of the statement must be written with their value in its text, harness/littie.go, key sql-text-literal-differs-from-statement) + FRAGMENT queries (the generators of C01's tie: stage S1, stage S2b (one hop with WHERE), stage S2c (chains, with and without WHERE conjuncts over single variables), stage S1c / S2n (count over a node pattern / a hop), stage S2L (a hop with LIMIT k and no ORDER BY: limit pushdown), and `MATCH (n[:K...]) RETURN count(n)`; for these the driver also "
             "compares both REAL statements with the model variants trVariantL of opt_equiv / opt_equiv_limit (either join order of a hop; on S2L the optimised model statement carries the LIMIT on the hop frame too) — outcome frag-tie, a difference is a VIOLATION even when the evaluations agree) + every Cypher text of the repository corpora the translator accepts + structured random queries "
             "(levels 1-5, splitmix64(VERIF_SEED)); each is translated twice by the REAL translator: `Translate` (optimised) and the verif-tagged hook `TranslateUnoptimized` "
             "(hooks/C02.patch: no rewrite rule, no lowering plan, no fast path), plus rules-only / lowerings-only variants to attribute a difference. Both statements are evaluated by "
@@ -211,7 +214,7 @@ SPEC = {
     "trusted_base": ["Sql.eval / Cy.eval / encode as in C01 (Lean transcriptions of the PostgreSQL 16 documentation and of openCypher 9; no PostgreSQL server in the sandbox)",
                      "hooks/C02.patch: translate.TranslateVariant drives the unchanged translator with an empty optimisation plan (rules / lowerings / fast paths switched off individually)",
                      "tools/extract/goext mode c02guard: the conjuncts of queryPartAllowsLimitPushdown (optimize/lowering_plan.go), limitPushdownTailSource (translate/projection.go) and "
-                     "countStoreFastPathDecision's early returns are read off the Go AST as source text; the Lean guards are tied to them by decide",
+                     "countStoreFastPathDecision's early returns are read off the Go AST as source text; the Lean guards are tied to them by decide; so is the BODY of the helper behind the last conjunct of the tail guard, shortestPathLimitPushdownTransparentWhere (conditions, definitions and returns in source order: transparent_where_tie) — a tail WHERE is transparent only if absent or made of the endpoint inequality over a transparent shortest-path harness frame; any new early `return true` breaks the tie at build time (limit_below_filter_loses_rows states why the guard is needed)",
                      "harness/sexp.go reflection rendering and the Lean readers (unknown node -> unmodelled)"],
     "assumptions": ["the rewrite / lowering theorems are about abstract relational models of the transformations (bag joins, row pipelines, chain patterns over a graph) and, for the count "
                     "fast path, about the real statement shapes under Sql.eval; that the Go code implements these transformations is checked by the search, not proved",
